@@ -13,27 +13,17 @@ From E57 Require Import Base.Prelude Base.Floats Model.PagedReader Spec.PageSpec
   Model.Prog Model.QueueReader Model.Normalize Model.SimpleIter Spec.SimpleSpec
   Proofs.SimpleFrames Proofs.SimplePose Proofs.SimpleTheorems.
 
-(** [raw_read_all_st] is the raw iteration of the queue reader model, returning
-    in addition the iterator it ends with. *)
-Theorem C05_raw_iteration : forall pc fuel log_size (s : pr),
-  rrun (raw_read_all fuel log_size pc) s =
-  let '(s', r) := rrun (raw_read_all_st fuel log_size pc) s in (s', res_map fst r).
-Proof. exact raw_read_all_is_fst. Qed.
-Print Assumptions C05_raw_iteration.
-
 (** Same count, same order, every point the documented view - for every option
-    vector.  Hypotheses beyond the property text, each necessary (Proofs/SimpleTheorems.v
-    has the counterexamples): the constructor accepts the limits; the
-    invalid-state, row and column records have integer type; and the
-    invalid-state values are in their documented sets also in the complete
-    points the last packet read holds beyond [records] ([leftover]). *)
+    vector.  Hypotheses beyond the property text, each necessary (findings
+    recorded for C05): the constructor accepts the limits, and the
+    invalid-state, row and column records have integer type. *)
 Theorem C05_simple_is_view :
   forall (fcos fsin fasin : binary64 -> binary64) (fatan2 : binary64 -> binary64 -> binary64)
-         pc o log_size fuel (s s' : pr) raws itf rgs,
-  rrun (raw_read_all_st fuel log_size pc) s = (s', Ok (raws, itf)) ->
+         pc o log_size fuel (s s' : pr) raws rgs,
+  rrun (raw_read_all fuel log_size pc) s = (s', Ok raws) ->
   prepare_ranges pc = Ok rgs ->
   index_records_are_integers pc = true ->
-  Forall (fun raw => invalid_states_in_set pc raw = true) (raws ++ leftover itf) ->
+  Forall (fun raw => invalid_states_in_set pc raw = true) raws ->
   exists pts, rrun (simple_read_all fcos fsin fasin fatan2 fuel log_size pc o) s = (s', Ok pts) /\
               res_all (view fcos fsin fasin fatan2 pc o) raws = Ok pts.
 Proof. exact simple_is_view_rrun. Qed.
@@ -42,11 +32,11 @@ Print Assumptions C05_simple_is_view.
 (** The same on the logical stream (the semantics in which the format-level theorems are stated). *)
 Theorem C05_simple_is_view_logical :
   forall (fcos fsin fasin : binary64 -> binary64) (fatan2 : binary64 -> binary64 -> binary64)
-         pc o log_size fuel log (off off' : N) raws itf rgs,
-  rrun_spec log (raw_read_all_st fuel log_size pc) off = (off', Ok (raws, itf)) ->
+         pc o log_size fuel log (off off' : N) raws rgs,
+  rrun_spec log (raw_read_all fuel log_size pc) off = (off', Ok raws) ->
   prepare_ranges pc = Ok rgs ->
   index_records_are_integers pc = true ->
-  Forall (fun raw => invalid_states_in_set pc raw = true) (raws ++ leftover itf) ->
+  Forall (fun raw => invalid_states_in_set pc raw = true) raws ->
   exists pts, rrun_spec log (simple_read_all fcos fsin fasin fatan2 fuel log_size pc o) off = (off', Ok pts) /\
               res_all (view fcos fsin fasin fatan2 pc o) raws = Ok pts.
 Proof. exact simple_is_view_rrun_spec. Qed.
@@ -54,8 +44,8 @@ Print Assumptions C05_simple_is_view_logical.
 
 (** The simple iteration fails only if the raw iteration does not succeed, or
     the constructor rejects the limits, or an invalid-state / row / column
-    record is not an integer record, or an invalid-state value of a decoded
-    point lies outside its documented set. *)
+    record is not an integer record, or an invalid-state value of a raw point
+    lies outside its documented set. *)
 Theorem C05_fails_only_if :
   forall (fcos fsin fasin : binary64 -> binary64) (fatan2 : binary64 -> binary64 -> binary64)
          pc o log_size fuel (s s' : pr) e,
@@ -63,8 +53,8 @@ Theorem C05_fails_only_if :
   (forall raws, snd (rrun (raw_read_all fuel log_size pc) s) <> Ok raws)
   \/ (forall rgs, prepare_ranges pc <> Ok rgs)
   \/ index_records_are_integers pc = false
-  \/ exists s'' raws itf, rrun (raw_read_all_st fuel log_size pc) s = (s'', Ok (raws, itf)) /\
-       Exists (fun raw => invalid_states_in_set pc raw = false) (raws ++ leftover itf).
+  \/ exists s'' raws, rrun (raw_read_all fuel log_size pc) s = (s'', Ok raws) /\
+       Exists (fun raw => invalid_states_in_set pc raw = false) raws.
 Proof. exact simple_fails_only_if_rrun. Qed.
 Print Assumptions C05_fails_only_if.
 
